@@ -8,6 +8,7 @@ import (
 	"os"
 	"strconv"
 	"strings"
+	"time"
 )
 
 // Result of running one case on the implementation.
@@ -71,8 +72,24 @@ func main() {
 			if strings.TrimSpace(line) == "" {
 				continue
 			}
-			r := runCase(p, line)
-			fmt.Fprintf(out, "%s\t%s\t%s\n", r.Obs, r.Oracle, strings.Join(r.Tags, ","))
+			// every case has a deadline: a case that spins or blocks is reported as such, and the process ends there
+			// (the cases behind it are run again, each on its own, by bin/check)
+			limit := 120 * time.Second
+			if v := os.Getenv("VH_CASE_LIMIT"); v != "" {
+				if n, err := strconv.Atoi(v); err == nil {
+					limit = time.Duration(n) * time.Second
+				}
+			}
+			done := make(chan Result, 1)
+			go func() { done <- runCase(p, line) }()
+			select {
+			case r := <-done:
+				fmt.Fprintf(out, "%s\t%s\t%s\n", r.Obs, r.Oracle, strings.Join(r.Tags, ","))
+			case <-time.After(limit):
+				fmt.Fprintf(out, "hang\tfail:the case did not finish within %d s (spinning or blocked)\tnt,hang\n", int(limit.Seconds()))
+				out.Flush()
+				os.Exit(3)
+			}
 		}
 	case "one":
 		r := runCase(p, strings.Join(os.Args[3:], " "))
